@@ -460,6 +460,28 @@ func runCase(c caseT) (viol []string, held bool) {
 			bad("timeout: the handler outlives CloseTimeout (%v) but every Close call returned nil after %v", c.CloseTimeout, closeTook)
 		}
 	}
+	// "each of those is either handled to completion and settled ..., or never handled and never acked" - whatever Close returned
+	if !c.GoChannel {
+		for tag, a := range after {
+			if a.acked && !a.started {
+				bad("settle: message %s is acked although no handler invocation ever started for it (path point %s)", tag, c.Point)
+			}
+		}
+	}
+	// "closes every handler's ... publisher": also when Close gives up on the running invocations. (Only where the receive
+	// loops end on their own at Close: a subscriber that keeps its channel open until its message is settled keeps the loop.)
+	if anyErr && !c.SlowDrain && !c.GoChannel && !c.SubEnds && !c.ViaCtx {
+		for k, r := range results {
+			if r.err == nil {
+				continue
+			}
+			for pi, n := range r.pubClosed {
+				if n == 0 {
+					bad("close: publisher %d was not closed when Close caller %d returned %q", pi, k, r.err)
+				}
+			}
+		}
+	}
 	if !anyErr {
 		check := func(where string, snap map[string]sample) {
 			for tag, s := range snap {
@@ -538,7 +560,6 @@ func TestGracefulClose(t *testing.T) {
 		}
 	})
 }
-
 
 // ---------- Close arrives while the router is still starting its handlers ----------
 
